@@ -293,7 +293,7 @@
   "C10"
  ],
  "level": "B(24)",
- "tier": "quick",
+ "tier": "thorough",
  "harness": "h_dirhash",
  "defines": [
   "HT_CAP=24",
